@@ -54,8 +54,9 @@ class PackageLoader(BaseLoader):
         template_path = Path(template_name)
 
         # Don't build a path that escapes package/package_path.
-        # Does ".." appear in template_name?
-        if os.path.pardir in template_path.parts:
+        # Is template_name absolute (joining it would discard package_path), or
+        # does ".." appear in template_name?
+        if template_path.anchor or os.path.pardir in template_path.parts:
             raise TemplateNotFoundError(template_name)
 
         # Add suffix self.ext if template name does not have a suffix.
